@@ -38,7 +38,8 @@ ASSUMPTIONS = [
     "only fsync'ed data, completed directory operations survive (journaling assumption)",
     "part_file (if given) is a plain file name different from the destination's base name; the working directory does "
     "not change during the save; destination and part are regular files (no symlinks/directories)",
-    "the body only writes/flushes the file object it is given (no seek/truncate/read, no access to the paths)",
+    "the body only writes/flushes the file object it is given, and may rewind it (seek(0)) when it is done; no "
+    "truncate, no writes after a seek, no access to the paths",
     "the io layer's buffering policy is not modelled: after every write the model is told how many bytes the runtime "
     "pushed to the kernel (measured with fstat); the theorems hold for every such choice",
 ]
@@ -227,6 +228,10 @@ class FileProxy:
     def flush(self):
         return self._ctx.event(["flush"], self._f.flush)
 
+    def seek(self, *a):
+        # repositioning a buffered/text writer flushes it first: observed as that flush
+        return self._ctx.event(["flush"], lambda: self._f.seek(*a))
+
     def close(self):
         def on_fault():
             try:
@@ -341,6 +346,8 @@ def _drive(fu, cfg, ctx, tmpdir, body, body_exc):
                 f.write(s if text else s.encode("utf-8"))
             elif op[0] == "f":
                 f.flush()
+            elif op[0] == "r":
+                f.seek(0)        # rewind after writing (only generated as the last operation of a body)
         ctx.body_idx = None
         if body_exc:
             raise BodyError()
@@ -683,6 +690,13 @@ def gen_body(rng, tier, big_ok=True):
     style = rng.choice(["none", "one", "one", "many", "many", "overbuf", "flushes", "big"])
     if style == "big" and not big_ok:
         style = "many"
+    if style != "none" and style != "big" and rng.random() < 0.12:
+        # the body rewinds its w+ file when it is done (e.g. after reading it back)
+        return gen_body_plain(rng, tier, style) + [["r"]]
+    return gen_body_plain(rng, tier, style)
+
+
+def gen_body_plain(rng, tier, style):
     if style == "none":
         return []
     if style == "one":
